@@ -43,6 +43,7 @@ def hash_shape(F, e):
 
 
 def run(F, R, tier):
+    _round6(F, R)
     bf = F.body("fast_check::build_fast_check_type_graph")
     # ---------------- C12-a ------------------------------------------------
     RES_T = "Vec<(url::Url, std::result::Result<fast_check::transform::FastCheckModule"
@@ -287,3 +288,20 @@ def run(F, R, tier):
                 ex = c04.EXEMPT.get((b["path"], expr_text(x)))
                 R.ob("C12-f", "hash iteration in %s" % b["path"], verdict == "insensitive" or bool(ex), detail, where(x))
     R.analysed["fast_check_hash_iterations"] = n
+
+
+def _round6(F, R):
+    # C12-b: nothing recorded in a cache entry has any effect before the entry
+    # has been validated against the current sources
+    tg = [x for x in F.bodies if x["path"].endswith("PublicRangeFinder::try_get_cache_item")]
+    if not R.ob("C12-b", "cache lookup found", len(tg) == 1, "try_get_cache_item not found"):
+        return
+    tg = tg[0]
+    eff = [n for n in tg["_nodes"] if n.get("k") in ("MethodCall", "Call") and ((n.get("fn") or "").endswith("add_pending_nv_no_referrer") or (n.get("fn") or "").endswith("add_pending_nv"))]
+    R.floor("C12-b effects of a cache entry's dependency list", len(eff), 1)
+    for n in eff:
+        g = guards_at(F, n)
+        ok = any(x.kind == "cond" and x.pol and mentions_call(x.node, ["is_cache_item_valid"]) for x in g)
+        R.ob("C12-b", "dependencies of a cache entry are queued only after the entry was validated", ok,
+             "try_get_cache_item queues the packages recorded in a cache entry before `is_cache_item_valid` accepted it: a stale entry (sources changed) still makes its old dependencies get fast-check output, so a run with a stale cache differs from a run without cache",
+             where(n), key="C12|C12-b|stale-entry-dependencies-queued")
